@@ -626,7 +626,9 @@ def H6_reserve_small_tables(ctx):
                 bad.append(f'the running suffix starts from {show(acc)[:40]} instead of zero')
             if not has_call(e.d['args'][1], '::max_balance_spending'):
                 bad.append('the amount added is not the transaction\'s maximum balance spending')
-        st = [e for e in p.events if e.kind == 'assign' and (mentions_field(e.d['place'], 'AccountReserveSchedule.cost_from') or 'cost_from' in show(e.d['place']) or has_call(e.d['place'], '::index_mut'))]
+        # stored: through `cost_from[i]`, or through the `&mut` items of an iterator over the cost vector
+        st = [e for e in p.events if e.kind == 'assign' and (mentions_field(e.d['place'], 'AccountReserveSchedule.cost_from') or 'cost_from' in show(e.d['place']) or has_call(e.d['place'], '::index_mut')
+                                                              or (e.d['place'][0] != 'var' and has_call(e.d['place'], '::iter_mut')))]
         for e in st:
             if has_call(e.d['value'], '::saturating_add'):
                 n_store += 1
@@ -646,7 +648,8 @@ def H6_reserve_small_tables(ctx):
                     bad.append(f'the "nothing later" answer is {ret[1][-12:]}')
                 if owner == 'ReservePlanner':
                     unknown = any(of and of[1] == 'None' and has_call(of[0], '::get') for of in (option_fact(a) for a in p.events))
-                    none_later = holds_rel(p, len(p.events), lambda op, l, r: op == 'Eq' and has_call(l, '::partition_point') and has_call(r, '::len'))
+                    # partition_point never exceeds len: `== len` and `>= len` (a failed `< len`) are the same fact
+                    none_later = holds_rel(p, len(p.events), lambda op, l, r: op in ('Eq', 'Ge') and has_call(l, '::partition_point') and has_call(r, '::len'))
                     if not unknown and not none_later:
                         bad.append('zero is answered although the sender has later transactions in the block')
             if owner == 'AccountReserveSchedule' and ret[0] != 'const':
